@@ -64,4 +64,27 @@ func init() {
 		}
 		return jobs
 	}
+
+	// ---- C06 sequential part: the event ledger along every operation sequence ----
+	conc06 := plans["C06"]
+	plans["C06"] = func(thorough bool) []*Job {
+		jobs := conc06(thorough)
+		kinds := []string{"event-missing", "event-duplicate", "wrong-cause", "event-for-unknown-value", "unexpected-removal"}
+		for _, cfg := range []CacheCfg{
+			{}, // no maintenance: the fast notification path
+			{MaxSize: 2},
+			{MaxWeight: 4},
+			{Expiry: "writing", TTL: 100, ClockStart: 1 << 40},
+			{MaxSize: 2, Expiry: "accessing", TTL: 100, Refresh: "writing", RefreshTTL: 40, ClockStart: 1 << 40},
+			{MaxSize: 2, Expiry: "writing", TTL: 100, Executor: "deferred", ClockStart: 1 << 40},
+		} {
+			depth, budget := 3, 60
+			if thorough {
+				depth, budget = 4, 600
+			}
+			a := baseAlphabet([]int{1, 2, 3}, cfg, true)
+			jobs = append(jobs, seqJob(seqParams{Cfg: cfg, Alphabet: a, Kinds: kinds}, depth, 4, budget))
+		}
+		return jobs
+	}
 }
